@@ -853,6 +853,11 @@ clr_poss(bitint383_t *restrict cand, const bitint383_t *poss)
 		if (LIKELY(c > 0)) {
 			ass_bi383(&res, c);
 		}
+		if (UNLIKELY(!ci)) {
+			/* ran off the end, there is no such position,
+			 * make the next one start over */
+			pos = INT_MAX;
+		}
 	}
 	/* copy res over */
 	*cand = res;
